@@ -14,8 +14,14 @@ spec->code:
      original function objects (second run on a problem); after every call the original function objects
      (values, Jacobians, coefficients of the linear ones: dense, csr_array or csr_matrix depending on the
      variant) are compared with the specification's F / DF (clause OriginalIntact);
+ (2c) caller-owned arrays (specs/ProblemEvalRef.tla, EXTENDS ProblemEval): the array given to a call and the
+     arrays a call returns are cells of the caller; the actions MutateArg (arg[:] = another request) and
+     MutateReturned (every returned array += 1) are replayed as in-place edits of the very numpy objects of
+     the last call, and the database / call logs are compared with TLC's state right after the edit and after
+     every later call (a request at the recorded point is served from the database with the first result);
  (3) TLC must refute the property when the two rules of the code that contradict it are put into the
-     specification as coded (LinRule / GradRule = "asCoded"): the defects are found at specification level.
+     specification as coded (LinRule / GradRule = "asCoded"): the defects are found at specification level;
+     likewise the by-reference storage models KeyByRef / ValueByRef of ProblemEvalRef must be refuted.
 The oracle is the TLA+ state; Python only builds the objects, divides/multiplies by the scale and compares.
 """
 from __future__ import annotations
@@ -207,12 +213,14 @@ class Harness:
         else:
             problem.add_observable(mdo[fns[1]])
         self.variant = variant
+        self.lin_jac_edited = set()
         self.first_preprocess(cfgd)
 
     def first_preprocess(self, c):
         """preprocess_functions on the original functions (at construction, or after problem.reset())."""
         self.cfg = c
         self.preprocess(c)
+        self.lin_jac_edited = set()  # (new problem functions)
         for f in self.fns:  # MDOLinearFunction.normalize evaluates the original once while preprocessing
             self.logs[f]["f"].clear()
             self.logs[f]["j"].clear()
@@ -254,10 +262,22 @@ class Harness:
             arrays = [a for d in (self.returned["outs"], self.returned["jacs"]) for a in d.values()]
             if not arrays:
                 raise MachineryError("MutateReturned without a returned array")
+            # classification only (signature of D0111): a Jacobian returned for a linear function in the
+            # MDOLinearFunction.normalize branch (normalised inputs, no integer variable) has been edited
+            if self.cfg["normalize"] and not self.int_cols:
+                self.lin_jac_edited |= {f for f in self.returned["jacs"] if f in self.lin}
+            # storage of the user's ORIGINAL function objects (MDOLinearFunction.jac returns its own coefficient
+            # matrix): what a caller does to it is between the caller and the user's function, not C01's
+            own = []
+            for f in self.lin:
+                co = self.mdo[f].coefficients
+                own += [co.data if hasattr(co, "toarray") else np.asarray(co), np.asarray(self.mdo[f].value_at_zero)]
             for a in arrays:
                 target = a.data if hasattr(a, "toarray") else a  # sparse: the explicit entries
                 if not isinstance(target, np.ndarray) or not target.flags.writeable or target.ndim == 0:
                     continue  # nothing the caller could edit in place
+                if any(np.shares_memory(target, o) for o in own):
+                    continue
                 target += 1
         return {"outs": {}, "jacs": {}}
 
@@ -341,7 +361,8 @@ def compare_step(ck: Check, h: Harness, state, got, ctx):
              # alphabet that builds its database key through unnormalize_vect's common dtype (D0108)
              "norm_evalall_in_history": any(c[0] == "EvalAll" and bool(c[2]) for c in ctx["calls"]),
              # the caller has edited in place the array it gave to / an array it got from an earlier call
-             "arg_mutated": n_edits["MutateArg"] > 0, "returned_mutated": n_edits["MutateReturned"] > 0}
+             "arg_mutated": n_edits["MutateArg"] > 0, "returned_mutated": n_edits["MutateReturned"] > 0,
+             "lin_jac_edited": f in h.lin_jac_edited}
         s.update(diff=h.diff, jac=h.variant["jac"], support_sparse=h.variant["support_sparse"],
                  build=h.variant["build"], cur=h.cur, pre_norm=h.variant["pre_norm"])
         s.update(kw)
@@ -364,7 +385,9 @@ def compare_step(ck: Check, h: Harness, state, got, ctx):
         if e.shape != a.shape or not e.size:
             return False
         d = (a - e) / S
-        return bool(np.all((d == np.round(d)) & (d >= 0) & (d <= n_edits["MutateReturned"])) and np.any(d > 0))
+        tol = FD_ATOL / S if h.fd else 0.0  # (approximated Jacobians are compared with a tolerance)
+        k = np.round(d)
+        return bool(np.all((np.abs(d - k) <= tol) & (k >= 0) & (k <= n_edits["MutateReturned"])) and np.any(k > 0))
 
     def jac_diff(exp, act, physical):
         """Classification only (signature of D0101): the implementation differs from the specification
@@ -633,11 +656,14 @@ def _plain(x):
     return x
 
 
-def bfs_and_tour(ck: Check, spaces, fns, npts, max_level, rng, variants_per_path):
-    r = ck.tlc(MODULE, cfg_text(spaces, fns[0], fns[1], npts, 1000, max_level), workers=4, timeout=900,
-               dump=True, coverage=False, deadlock=False)
-    if r.depth != max_level:
-        raise MachineryError(f"vacuity: depth of the state graph is {r.depth}, expected {max_level}")
+def bfs_and_tour(ck: Check, spaces, fns, npts, max_level, rng, variants_per_path, max_mut=0):
+    """max_mut > 0: the graph with the caller's in-place edits; only the tour paths that contain an edit are
+    replayed (the others are paths of the graph without edits, replayed by the max_mut = 0 run on the same
+    spaces)."""
+    r = ck.tlc(MODULE, cfg_text(spaces, fns[0], fns[1], npts, 1000, max_level, max_mut=max_mut), workers=4,
+               timeout=900, dump=True, coverage=False, deadlock=False)
+    if r.depth != max_level + max_mut:
+        raise MachineryError(f"vacuity: depth of the state graph is {r.depth}, expected {max_level + max_mut}")
     lin_data = calibrate(ck, r.printed(), fns)
     g = Graph(ck.work / f"{MODULE}.dot")
     canonical_order(g)
@@ -647,12 +673,19 @@ def bfs_and_tour(ck: Check, spaces, fns, npts, max_level, rng, variants_per_path
     for (_, d, _, _) in g.edges:
         k = str(g.states[d]["ret"]["call"][0])
         kinds[k] = kinds.get(k, 0) + 1
-    for k in CALLS:
+    for k in (CALLS if max_mut else CALLS[:5]):
         if not kinds.get(k):
             raise MachineryError(f"vacuity: no {k} transition in the state graph")
     hits = sum(1 for (_, d, _, _) in g.edges if g.states[d]["ret"]["hitF"] or g.states[d]["ret"]["hitJ"])
     if not hits:
         raise MachineryError("vacuity: no transition served from the database")
+    # a request served from the database AFTER the caller edited its arrays in place
+    hits_after_edit = sum(1 for (s_, d, _, _) in g.edges if g.states[s_]["nmut"] > 0 and
+                          (g.states[d]["ret"]["hitF"] or g.states[d]["ret"]["hitJ"]))
+    if max_mut and max_level > 2 and not hits_after_edit:
+        raise MachineryError("vacuity: no transition served from the database after an in-place edit")
+    ck.extra["transitions_served_from_db_after_edit"] = \
+        ck.extra.get("transitions_served_from_db_after_edit", 0) + hits_after_edit
     ck.extra["transitions_by_call"] = {k: kinds[k] + ck.extra.get("transitions_by_call", {}).get(k, 0) for k in kinds}
     ck.extra["transitions_served_from_db"] = ck.extra.get("transitions_served_from_db", 0) + hits
     paths = g.tour()
@@ -661,6 +694,8 @@ def bfs_and_tour(ck: Check, spaces, fns, npts, max_level, rng, variants_per_path
     for n, path in enumerate(paths):
         covered.update(path)
         states = [g.states[g.edges[path[0]][0]]] + [g.states[g.edges[k][1]] for k in path]
+        if max_mut and not any(str(st["ret"]["call"][0]) in EDITS for st in states[1:]):
+            continue
         vs = VARIANTS if variants_per_path >= len(VARIANTS) else \
             [VARIANTS[(n * variants_per_path + j * 7 + rng.randrange(len(VARIANTS))) % len(VARIANTS)]
              for j in range(variants_per_path)]
@@ -669,14 +704,17 @@ def bfs_and_tour(ck: Check, spaces, fns, npts, max_level, rng, variants_per_path
     if len(covered) != len(g.edges):
         raise MachineryError(f"tour covers {len(covered)} of {len(g.edges)} transitions")
     ck.extra["tour_paths"] = ck.extra.get("tour_paths", 0) + len(paths)
+    if max_mut:
+        ck.extra["tour_paths_with_edit_replayed"] = ck.extra.get("tour_paths_with_edit_replayed", 0) + \
+            len(jobs) // max(1, min(variants_per_path, len(VARIANTS)))
     ck.extra["tour_transitions"] = ck.extra.get("tour_transitions", 0) + len(g.edges)
     return lin_data
 
 
-def simulate(ck: Check, spaces, fns, npts, depth, num, rng, variants_per_path):
+def simulate(ck: Check, spaces, fns, npts, depth, num, rng, variants_per_path, max_mut=3):
     prefix = ck.work / f"sim-{fns[0]}-{fns[1]}"
-    r = ck.tlc(MODULE, cfg_text(spaces, fns[0], fns[1], npts, 1000, depth), workers=1, timeout=900,
-               simulate=f"num={num},file={prefix}", depth=depth, seed=ck.seed + 1, coverage=False,
+    r = ck.tlc(MODULE, cfg_text(spaces, fns[0], fns[1], npts, 1000, depth, max_mut=max_mut), workers=1, timeout=900,
+               simulate=f"num={num},file={prefix}", depth=depth + max_mut, seed=ck.seed + 1, coverage=False,
                deadlock=False, count=False)
     lin_data = calibrate(ck, r.printed(), fns)
     files = sorted(ck.work.glob(f"{prefix.name}_*"), key=lambda p: [int(t) for t in re.findall(r"\d+", p.name)])
@@ -691,6 +729,10 @@ def simulate(ck: Check, spaces, fns, npts, depth, num, rng, variants_per_path):
             continue
         jobs += [(states, rng.choice(VARIANTS), "simulate") for _ in range(variants_per_path)]
         n += 1
+        for st in states[1:]:
+            k = str(st["ret"]["call"][0])
+            if k in EDITS:
+                ck.extra[f"simulated_{k}"] = ck.extra.get(f"simulated_{k}", 0) + 1
     replay_many(ck, fns, lin_data, jobs)
     ck.extra["simulated_behaviours"] = ck.extra.get("simulated_behaviours", 0) + n
     ck.extra["simulated_depth"] = depth
@@ -708,13 +750,26 @@ def refutations(ck: Check):
                                  f"TLC reported {r.violated!r}")
         out[name] = r.violated
     ck.extra["as_coded_rules_refuted_by_tlc"] = out
+    # by-reference storage of the caller's arrays (implementation-shaped switches of ProblemEvalRef) is
+    # refuted too: the in-place edits are not vacuous
+    out = {}
+    for name, kw, clauses in (
+            ("KeyByRef", {"key_by_ref": True}, ("Recorded", "KeysDistinct", "KeysAppendOnly", "CallerCannotCorrupt")),
+            ("ValueByRef", {"value_by_ref": True}, ("Recorded", "WriteOnce", "CallerCannotCorrupt"))):
+        r = ck.tlc(MODULE, cfg_text(["finite"], "qs", "lv", 2, 1000, 3, **kw), workers=2, timeout=300,
+                   coverage=False, deadlock=False, count=False, expect_ok=False)
+        if r.violated not in clauses:
+            raise MachineryError(f"specification with {name}: expected a violation of one of {clauses}, "
+                                 f"TLC reported {r.violated!r}")
+        out[name] = r.violated
+    ck.extra["by_reference_storage_refuted_by_tlc"] = out
 
 
 def vacuity(ck: Check):
     """A small coverage-enabled run (coverage mode is slow on this module, so the big runs go without):
     every action of the specification is taken; the dumped graphs are checked again per call kind."""
     ck.tlc(MODULE, cfg_text(["equal"], "qs", "lv", 1, 1000, 3), workers=2, timeout=600, coverage=True,
-           deadlock=False, count=False, require_actions=CALLS)
+           deadlock=False, count=False, require_actions=ACTIONS)
 
 
 def run(ck: Check):
@@ -739,10 +794,16 @@ def _run(ck: Check):
         # all triples of calls, 2 request points, on the spaces where keys are shared / coordinates inert
         for sid in ("int", "equal", "intneg"):
             bfs_and_tour(ck, [sid], ("qs", "lv"), 2, 4, rng, 1)
+        # the caller's in-place edits of its arrays: one edit anywhere, on every space (several edits per
+        # behaviour: the simulations below)
+        for sid in ALL_SPACES:
+            bfs_and_tour(ck, [sid], ("qs", "lv"), 2, 3, rng, 1, max_mut=1)
         simulate(ck, ALL_SPACES, ("qs", "lv"), 3, 10, 1500, rng, 1)
         simulate(ck, ALL_SPACES, ("qv", "ls"), 3, 10, 1500, rng, 1)
     else:
         bfs_and_tour(ck, ["equal", "halfinf", "int", "intneg"], ("qs", "lv"), 2, 3, rng, 1)
+        # the same graph with one in-place edit of the caller's arrays anywhere (call, edit, call included)
+        bfs_and_tour(ck, ["equal", "int"], ("qs", "lv"), 2, 3, rng, 1, max_mut=1)
         simulate(ck, ALL_SPACES, ("qv", "ls"), 3, 8, 250, rng, 1)
     ck.exhaustive = True  # every transition of the bounded graph(s) was replayed on the implementation
     ck.assumptions += [
@@ -752,6 +813,9 @@ def _run(ck: Check):
         "catalogue point; the linear functions are built from the specification's data",
         "approximated derivatives (finite differences / complex step) are not replayed (C16)",
         "call logs of MDOLinearFunction are only bounded from above (the scaled twin has no user callable)",
+        "in-place edits of the caller's arrays are enumerated with a database only (useDb); a returned array that "
+        "is the storage of the user's ORIGINAL function object (MDOLinearFunction.jac returns its coefficient "
+        "matrix) is left unedited: what a caller does to it is between the caller and the user's function",
     ]
 
     # ---- specification growth: the life cycle of the problem around the evaluations (specs/ProblemLife.tla:
